@@ -110,7 +110,7 @@ def power_spectrum_lemma(ctx):
     ctx.oblige('C18::wfe.power_spectrum.shape_is_the_mask_shape', z3.And(S.z(S.eq(res.shape[0], n)), S.z(S.eq(res.shape[1], m))))
     calls = ctx.__dict__.get('ghost_fft_calls', [])
     ok = len(calls) == 2 and calls[0]['fn'] == 'fft2' and calls[1]['fn'] == 'ifft2'
-    ctx.oblige('C18::wfe.power_spectrum.one_forward_one_inverse_transform', ok, info={'calls': [c['fn'] for c in calls]})
+    ctx.oblige('C18::wfe.power_spectrum.one_forward_one_inverse_transform', ok, 'structure', info={'calls': [c['fn'] for c in calls]})
     if not ok:
         return
     i, j = ints(ctx, 'i', 'j')
@@ -129,11 +129,11 @@ def power_spectrum_lemma(ctx):
     power = S.sigma(0, n, lambda a: S.sigma(0, m, lambda b: S.mul(masked(a, b), masked(a, b))))
     count = S.sigma(0, n, lambda a: S.sigma(0, m, lambda b: S.ite(S.ne(masked(a, b), 0), 1, 0)))
     v_pow = prove.find_named_sum(ctx, power)
-    ctx.oblige('C18::wfe.power_spectrum.normalises_by_the_power_of_the_masked_map', v_pow is not None)
+    ctx.oblige('C18::wfe.power_spectrum.normalises_by_the_power_of_the_masked_map', v_pow is not None, 'structure')
     if v_pow is None:
         return
     v_q = prove.find_named_sum(ctx, S.truediv(count, v_pow))
-    ctx.oblige('C18::wfe.power_spectrum.normalises_to_the_count_of_nonzero_samples', v_q is not None)
+    ctx.oblige('C18::wfe.power_spectrum.normalises_to_the_count_of_nonzero_samples', v_q is not None, 'structure')
     if v_q is None:
         return
     kappa = L.sqrt_scalar(ctx, v_q)
